@@ -45,6 +45,30 @@ CLAIMS = {
     "C18": ("formats", "runtime monitoring: round-trip identities over random and boundary values through every codec (wire, words/bytes/hex, Display/FromStr, JSON, postcard) + own slice rule for node_edges",
             "decode(encode(x)) == x for predicates (0..1000 nodes/edges, any edge_start) and mutation lists; words<->bytes<->hex; 32/64/65-byte array conversions in both directions; JSON and postcard round trips of Contract, SignedContract, Predicate, Program, Solution, SolutionSet, Mutation, ContentAddress, PredicateAddress, Signature; hex-string form in human-readable formats; legacy field names; node_edges(i) against the documented slice for every index.",
             "serde_json and postcard themselves are trusted", "5 C18"),
+    "C01": ("scen", "runtime monitoring: real two-pass checker vs an independent sequential graph evaluator; every node's actual input observed at the VM hook, beacon event log checked offline (exactly-once, after-parents), renumbered twin graphs",
+            "Per scenario (random DAGs in topological / reversed / random numberings, marker and empty-slice leaves, multi-edges, raw malformed and cyclic encodings; programs that work on any input; 1-5 solutions; both collect_all_failures values): Ok/Err, failing solution and node indices, total gas and computed mutations must equal the reference; each node must start exactly once, after its parents, from exactly the concatenation of its parents' results in ascending order (observed at the after_op hook, compared word for word); malformed/cyclic graphs must be rejected without any node of that solution running to acceptance.",
+            "reference evaluator (harness/vh/src/scen.rs) executes node programs with the real VM - the VM has its own checks (C05-C12); tolerances of DESIGN.md 5/C01-T (nodes downstream of a failure, first decoding error)", "5 C01"),
+    "C02": ("scen", "runtime monitoring: the same scenario re-executed under rayon pools of 1..16 threads with seeded delays injected from inside the tasks (state spy); results compared exactly; distinct task start/end orders counted from the beacon log",
+            "Each scenario (wider graphs, up to 8 solutions) runs under pools {1,2,5,16} x 2 delay seeds (thorough {1,2,3,5,8,16} x 4): Ok/Err, failing solution and node indices, gas and computed mutations in order must be identical across all runs and equal to the sequential reference; Compute-level determinism under pools is covered by C10's pool matrix.",
+            "error payloads are not compared (rayon returns an arbitrary child's error); a run observing fewer than 10 distinct task orders is inconclusive", "5 C02"),
+    "C03": ("scen", "runtime monitoring: observed-value beacons (the words a program just read travel out through a zero-count read) compared with the harness' overlay map; pass separation and exactly-once from the event log",
+            "Scenarios with post/pre readers at roots, middle nodes and leaves (own and external contracts, counts 0-4, key lengths 0-2, keys at word carry, deletions, declared and computed mutations, several solutions per contract): every observed range must equal overlay(declared + first-pass computed, empty = deleted, else pre-state); pre-reads must not see mutations; no post-dependent node may start before the last first-pass node of any solution has ended; results are compared with the reference evaluated over the harness' own overlay.",
+            "conflicting values for one contract/key from different solutions are the D2 class (C04's known finding): overlay order is then the set order", "5 C03"),
+    "C04": ("scen", "runtime monitoring: metamorphic re-execution of every set under reversal, rotation and random permutation of its solutions",
+            "Content address, check_set verdict, two-pass verdict, total gas and computed mutations per solution (mapped through the permutation) must be identical; sets in which two solutions give one contract/key different values are detected by the harness and carry the D2 signature (KNOWN-FINDING, canonical witness executed every run); any other order dependence is a VIOLATION.",
+            "known finding D2 is recorded in known_findings.json and not repaired (see DESIGN.md section 4)", "5 C04"),
+    "C06": ("total+scen", "runtime monitoring: totality monitor (catch_unwind with panic location, worker exit status under an 8 GiB address-space cap, write-ahead case log) over exhaustive short and random hostile inputs",
+            "Every word string of length <= 4 over a 9-value boundary alphabet plus mutated encodings through decode_mutation(s); truncated / bit-flipped / count-lying / random bytes through Predicate::decode and all accessors, from_bytes, BytecodeMapped, effects; over-limit sets and contracts through every validator; the two-pass checker on scenarios with 50 % malformed or cyclic graph encodings, 40 % malformed data outputs and 30 % hostile read counts (-1 .. i64::MAX) on contracts present and absent in the post-state.",
+            "documented preconditions are honoured (check_set_predicates gets validated sets; GetProgram/GetPredicate are total)", "5 C06"),
+    "C16": ("limits+scen", "runtime monitoring: validators compared with the acceptance predicate written from the property text at 0 / 1 / limit-1 / limit / limit+1 of every dimension; every set returned by the mutation-computing check is re-validated",
+            "~10^6 generated sets / predicates / contracts / signed contracts with one dimension at a boundary; ~12 000 scenarios whose computed mutations overlap declared keys, each other and second-pass outputs: the returned set must pass check_set_state_mutations.",
+            "recoverability of a signature is decided with secp256k1 directly", "5 C16"),
+    "C19": ("sign", "runtime monitoring: differential sign/recover/verify with tamper matrix, malformed-signature totality, injectivity bucketing of word encodings, VM RecoverSecp256k1 on the encoded words",
+            "30 000 keys x contracts: recover(sign(c, sk)) == pk(sk) under any predicate order; after any content change recovery no longer yields the signer; recovery ids 0..255, bit flips, all-ones, zero and random signatures give errors (never panics) consistently across recover / verify / check_signed_contract; key and signature words equal the documented layout, are pairwise distinct, and the VM op consumes/produces exactly them.",
+            "secp256k1 itself is trusted", "5 C19"),
+    "C20": ("lock", "runtime monitoring: unique-id append-only histories with call/return stamps checked offline for a single total order consistent with observed predecessors and real time; Miri many-seeds (data races, UB, deadlock); TSan in the thorough tier",
+            "~3000 short native histories with 2-8 threads, 1-3 locks and closures of varying duration plus 16-thread histories of 200 000 ops; 8 Miri schedules (64 thorough) of 3 threads x 6 ops; overlap flag, lost/duplicated/torn updates, wrong return values, real-time order; a process that consumes no CPU for 30 s with operations outstanding is a deadlock.",
+            "std::sync::Mutex is trusted; non-reentrant use only", "5 C20"),
 }
 
 NOT_YET = "check not built yet (work in progress; technique family unchanged: runtime monitoring)"
@@ -85,6 +109,12 @@ manifest = {
          "kind_free_text": "byte strings through from_bytes / to_bytes / BytecodeMapped / effects, judged against an own asm.yml reader and the pinned table"},
         {"name": "formats", "path": "harness/vh/src/formats.rs", "serves_properties": ["C17", "C18"],
          "kind_free_text": "hash / types crates driven with random and boundary values, judged against independent encoders and round-trip identities"},
+        {"name": "scen", "path": "harness/vh/src/scenengine.rs", "serves_properties": ["C01", "C02", "C03", "C04", "C06", "C16"],
+         "kind_free_text": "real check_and_compute_solution_set_two_pass under the state spy (beacons) and the VM-hook node spy, judged against a sequential reference evaluator"},
+        {"name": "total", "path": "harness/vh/src/total.rs", "serves_properties": ["C06"], "kind_free_text": "decoders and validators on hostile input under the totality monitor"},
+        {"name": "limits", "path": "harness/vh/src/limits.rs", "serves_properties": ["C16"], "kind_free_text": "validators vs the documented acceptance predicate at the limits"},
+        {"name": "sign", "path": "harness/vh/src/signeng.rs", "serves_properties": ["C19"], "kind_free_text": "sign / recover / verify differential with tamper matrix"},
+        {"name": "lock", "path": "harness/vh-lock/src/main.rs", "serves_properties": ["C20"], "kind_free_text": "contention histories on StdLock with an offline history checker; native, Miri, TSan"},
     ],
     "checks": checks,
     "notes": "All checks: exit 0 held / exit 1 with VIOLATION lines / exit 2 inconclusive (never a VIOLATION). VERIF_SEED and VERIF_TIER are honoured. Known findings: known_findings.json (D2 for C04, D11 for C05).",
